@@ -41,3 +41,6 @@ elab "#audit_deps" : command => do
             if (← Lean.findDeclarationRanges? n).isSome then
               cnt := cnt + 1
   logInfo m!"AUDIT-DEPS {cnt}"
+  for m in mods do
+    if m.toString.startsWith "QRV." || m.toString == "QRV" then
+      logInfo m!"AUDIT-MODULE {m}"
